@@ -301,4 +301,5 @@ def run(ctx):
 
     from engine.run import borrow
     borrow(ctx, 'C06', ['SEEK-GATE'], 'an out-of-range seek must be refused (SFE_BAD_SEEK) whatever mode bits the whence carries')
+    borrow(ctx, 'C16', ['FD-VALID'], 'a failed sf_open must leave no descriptor behind, including descriptor 0')
 
